@@ -2749,6 +2749,13 @@ impl Engine for Roundtrip {
         res
     }
 
+    /// The largest thorough-tier models (dozens of 64 KiB regions x 4 configurations, each file hex-encoded
+    /// to the Lean model and back) take ~25 s on an idle core; on a loaded machine the default 60 s was
+    /// exceeded and reported as `hang` (a false alarm: termination is not this property's claim).
+    fn case_timeout_secs(&self) -> u64 {
+        600
+    }
+
     fn model_request(&self, case: &str) -> Option<String> {
         let m = Model::parse(case)?;
         if region_wraps(&m) {
